@@ -280,6 +280,8 @@ class FTPClient(FTPServiceABC, discriminator="ftp-client"):
         :param: dest_port: The open port of the machine that hosts the FTP Server. Default is PORT_LOOKUP["FTP"].
         :type: dest_port: Optional[int]
         """
+        if not self._can_perform_action():
+            return False
         self._active = True
         # check if FTP is currently connected to IP
         self._connect_to_server(dest_ip_address=dest_ip_address, dest_port=dest_port)
